@@ -266,6 +266,18 @@ def run_C14(case):
             rules = dict(snaps[i - 1][2]) if i >= 1 else {}
             rules.update(snaps[i][2])
             files = SimDisk.state_at(log, k)
+            lag = None
+            if rng.random() < 0.4:
+                # the two stores are separate files with separate buffers: at a process death one of
+                # them can be a few writes behind the other (not an initial part of the joint write
+                # sequence, so C18 promises nothing here; this property still does)
+                which = rng.choice(["link_store.dat", "link_store.dat", "lru_trie.dat"])
+                j = rng.choice([1, 1, 2, 3])
+                idx = [x for x in range(k) if log[x][1].endswith(which) and log[x][2] in ("append", "rewrite")]
+                if len(idx) > j:
+                    drop = set(idx[-j:])
+                    files = SimDisk.state_at([e for x, e in enumerate(log[:k]) if x not in drop], k - j)
+                    lag = which
             try:
                 t, d = CR.reopen_on(files, snaps[i][3], rules)
             except TraphException:
@@ -282,6 +294,9 @@ def run_C14(case):
             ctx.op_index = -1
             ctx.log_mark = len(d.log)
             res.stats["crash_states_queried"] += 1
+            if lag:
+                res.stats["crash_states_with_one_store_behind"] += 1
+                res.probes["queried_with_%s_behind" % lag.split(".")[0]] += 1
             c = CR.classify_cut(log, k)
             if c:
                 res.probes["queried_after_" + c] += 1
